@@ -148,7 +148,7 @@ def m_alpha_vec(rng, sd, ac, st):
     st.pop("alpha", None)
     st.pop("beta", None)
     st["velocity"] = [100.0, 2.0, 5.0]
-    st[rng.choice(["alpha", "beta"])] = 2.0
+    st[rng.choice(["alpha", "beta"])] = rng.choice([2.0, 0.0, 0])       # (given at all, whatever the value: zero is a value)
 
 
 def m_frame(rng, sd, ac, st):
@@ -483,6 +483,8 @@ def run(chk):
                     bad.append("undefined-pitch-control:" + label)
             # wrong file extension where the documentation says "must"
             for label, f in (("distributions", lambda: sc.distributions(filename=os.path.join(tmp, "d.json"))),
+                             ("distributions-no-extension", lambda: sc.distributions(filename=os.path.join(tmp, "dist_run7"))),
+                             ("distributions-fragment", lambda: sc.distributions(filename=os.path.join(tmp, "d.cs"))),
                              ("export_stl", lambda: sc.export_stl(filename=os.path.join(tmp, "m.txt"))),
                              ("export_vtk", lambda: sc.export_vtk(filename=os.path.join(tmp, "m.txt")))):
                 if not raises(f):
